@@ -62,7 +62,7 @@ func genCase(t *rapid.T) schedCase {
 	for i := 0; i < nr; i++ {
 		var r sched.Rule
 		r.TimeoutMs = rapid.SampledFrom([]int{30, 60, 120}).Draw(t, "timeout")
-		switch rapid.IntRange(0, 5).Draw(t, "template") {
+		switch rapid.IntRange(0, 6).Draw(t, "template") {
 		case 0, 1: // Finalise overtakes a background writer
 			r.Step = rapid.SampledFrom(writerSteps[:6]).Draw(t, "w-step")
 			k := rapid.IntRange(0, max(0, spills-1)).Draw(t, "w-index")
@@ -81,6 +81,10 @@ func genCase(t *rapid.T) schedCase {
 			}
 			r.Until = "write-return-buffer"
 			r.UntilOcc = k + rapid.IntRange(0, 1).Draw(t, "later")
+		case 4: // two background writers reach the same step together (writer k waits for writer k+1)
+			r.Step = rapid.SampledFrom([]string{"write-file-created", "write-before-tempfile", "write-file-registered", "write-before-sync"}).Draw(t, "barrier-step")
+			r.Occ = rapid.IntRange(0, max(0, spills-2)).Draw(t, "barrier-k")
+			r.Until, r.UntilOcc = r.Step, r.Occ+1
 		case 3: // the caller is held until a writer reaches a step
 			r.Step = rapid.SampledFrom(callerSteps).Draw(t, "c-step")
 			r.Occ = rapid.IntRange(0, max(0, spills)).Draw(t, "c-occ")
